@@ -986,8 +986,8 @@ class _Source:
 
     def _get_number_pattern(self):
         # HACK: It is merely an approaximation and does the job
-        integer = r"\-?(0[xo][\da-fA-F]+|\d+)"
-        return r"(%s(\.\d*)?|(\.\d+))([eE][-+]?\d+)?[jJ]?" % integer
+        integer = r"\-?(0[xXoObB][\da-fA-F_]+|\d[\d_]*)"
+        return r"(%s(\.[\d_]*)?|(\.\d[\d_]*))([eE][-+]?\d[\d_]*)?[jJ]?" % integer
 
     _string_pattern = None
     _number_pattern = None
